@@ -394,7 +394,7 @@ def run_job(exe, job, workdir):
         ub = re.search(r"error: Undefined Behavior: [^\n]*", p.stderr)
         res = {"job": job, "rc": 0, "stderr": p.stderr[-3000:], "workdir": workdir,
                "miri": "ub" if ub else ("ok" if p.returncode == 0 else "unavailable"),
-               "miri_message": (ub.group(0) + " @ " + " | ".join(re.findall(r"--> (/repo/[^\n]*)", p.stderr)[:2])) if ub else p.stderr[-400:]}
+               "miri_message": (ub.group(0) + " @ " + " | ".join([x for x in re.findall(r"--> ([^\n]*)", p.stderr) if "/rustlib/" not in x][:2])) if ub else p.stderr[-400:]}
     else:
         p = subprocess.run(cmd, stdout=subprocess.PIPE, stderr=subprocess.PIPE, text=True)
         res = {"job": job, "rc": p.returncode, "stderr": p.stderr[-3000:], "workdir": workdir}
